@@ -1,8 +1,93 @@
 (* C04 - decoders are total: no panic, no read outside the input, valid packets accepted.
    Statements: Codec/Statements.v.  This file only closes statements with proved lemmas. *)
-From Codec Require Import Statements ProofsIds.
+From Codec Require Import Statements ProofsTotal ProofsAccept.
 
-(* placeholder until Codec/ProofsTotal.v is delivered: the identifier lemma is shared *)
-Theorem C04_ids_shared : Statements.C03_packet_ids.
-Proof. exact ProofsIds.packet_ids. Qed.
-Print Assumptions C04_ids_shared.
+(* for every message state and every byte string: never the Panic outcome (a Go slice access out of
+   range), and the returned count - on success and on error - is within the input *)
+Theorem C04_total_pub : Statements.C04_total_pub.
+Proof. exact ProofsTotal.total_pub. Qed.
+Print Assumptions C04_total_pub.
+
+Theorem C04_total_ack : Statements.C04_total_ack.
+Proof. exact ProofsTotal.total_ack. Qed.
+Print Assumptions C04_total_ack.
+
+Theorem C04_total_empty : Statements.C04_total_empty.
+Proof. exact ProofsTotal.total_empty. Qed.
+Print Assumptions C04_total_empty.
+
+Theorem C04_total_connack : Statements.C04_total_connack.
+Proof. exact ProofsTotal.total_connack. Qed.
+Print Assumptions C04_total_connack.
+
+Theorem C04_total_suback : Statements.C04_total_suback.
+Proof. exact ProofsTotal.total_suback. Qed.
+Print Assumptions C04_total_suback.
+
+Theorem C04_total_sub : Statements.C04_total_sub.
+Proof. exact ProofsTotal.total_sub. Qed.
+Print Assumptions C04_total_sub.
+
+Theorem C04_total_unsub : Statements.C04_total_unsub.
+Proof. exact ProofsTotal.total_unsub. Qed.
+Print Assumptions C04_total_unsub.
+
+Theorem C04_total_conn : Statements.C04_total_conn.
+Proof. exact ProofsTotal.total_conn. Qed.
+Print Assumptions C04_total_conn.
+
+(* on success every returned field is a part of the bytes of the decoded packet *)
+Theorem C04_inside_pub : Statements.C04_inside_pub.
+Proof. exact ProofsTotal.inside_pub. Qed.
+Print Assumptions C04_inside_pub.
+
+Theorem C04_inside_suback : Statements.C04_inside_suback.
+Proof. exact ProofsTotal.inside_suback. Qed.
+Print Assumptions C04_inside_suback.
+
+Theorem C04_inside_sub : Statements.C04_inside_sub.
+Proof. exact ProofsTotal.inside_sub. Qed.
+Print Assumptions C04_inside_sub.
+
+Theorem C04_inside_unsub : Statements.C04_inside_unsub.
+Proof. exact ProofsTotal.inside_unsub. Qed.
+Print Assumptions C04_inside_unsub.
+
+Theorem C04_inside_conn : Statements.C04_inside_conn.
+Proof. exact ProofsTotal.inside_conn. Qed.
+Print Assumptions C04_inside_conn.
+
+(* every well-formed MQTT 3.1.1 packet is accepted with the correct field values, also when followed
+   by other bytes, and exactly the packet is consumed *)
+Theorem C04_accepts_pub : Statements.C04_accepts_pub.
+Proof. exact ProofsAccept.accepts_pub. Qed.
+Print Assumptions C04_accepts_pub.
+
+Theorem C04_accepts_ack : Statements.C04_accepts_ack.
+Proof. exact ProofsAccept.accepts_ack. Qed.
+Print Assumptions C04_accepts_ack.
+
+Theorem C04_accepts_empty : Statements.C04_accepts_empty.
+Proof. exact ProofsAccept.accepts_empty. Qed.
+Print Assumptions C04_accepts_empty.
+
+Theorem C04_accepts_connack : Statements.C04_accepts_connack.
+Proof. exact ProofsAccept.accepts_connack. Qed.
+Print Assumptions C04_accepts_connack.
+
+Theorem C04_accepts_suback : Statements.C04_accepts_suback.
+Proof. exact ProofsAccept.accepts_suback. Qed.
+Print Assumptions C04_accepts_suback.
+
+Theorem C04_accepts_sub : Statements.C04_accepts_sub.
+Proof. exact ProofsAccept.accepts_sub. Qed.
+Print Assumptions C04_accepts_sub.
+
+Theorem C04_accepts_unsub : Statements.C04_accepts_unsub.
+Proof. exact ProofsAccept.accepts_unsub. Qed.
+Print Assumptions C04_accepts_unsub.
+
+Theorem C04_accepts_conn : Statements.C04_accepts_conn.
+Proof. exact ProofsAccept.accepts_conn. Qed.
+Print Assumptions C04_accepts_conn.
+
